@@ -236,7 +236,9 @@ REF_OPS = [("set", "s1"), ("set", "bx"), ("set", "rh"), ("disconnect", None), ("
            # its explicit signal, so that the whole chain hangs on one implicit net
            ("chain", "h2"), ("h1drop", None),
            # a connect-by-call that fails part-way (its second argument is not connectable), is caught, and is followed by more edits
-           ("badcall", "rh"), ("badcall", "s1")]
+           ("badcall", "rh"), ("badcall", "s1"),
+           # a slip of the pen - a bundle member / a port of h1 that does not exist - which a later `set` corrects
+           ("settypo", "bundle"), ("settypo", "port")]
 REF_VALS = {"s1": sig("s1"), "bx": bref("b1", "x"), "rh": pref("h1", "a")}
 # the same exploration on a bundle-valued port: bundle instance, anonymous bundle, reference to another instance's bundle port
 REF_VALS_T = {"s1": b("bA"), "bx": anon(x=sig("s1"), y=sig("vv")), "rh": pref("h1", "t")}
@@ -250,7 +252,7 @@ def ref_histories(depth):
         for hist in level:
             conn = None
             for op in hist:
-                if op[0] in ("set", "badcall"):  # the connection a failing call made before it failed stands
+                if op[0] in ("set", "badcall", "settypo"):  # the connection a failing call made before it failed stands
                     conn = op[1]
                 elif op[0] == "disconnect":
                     conn = None
@@ -336,6 +338,10 @@ def _ref_one(item):
                     return dict(kind="op", detail="replace() of an unconnected port did not raise")
                 except KeyError:
                     pass
+            elif op[0] == "settypo":
+                bad = getattr(ns["b1" if mode == "a" else "bA"], "no_such_member") if op[1] == "bundle" else getattr(ns["h1"], "no_such_port")
+                setattr(i, port, bad)
+                final["i"] = "typo"
             elif op[0] == "badcall":
                 v = objs[op[1]] if op[1] != "rh" else getattr(ns["h1"], port)
                 before = dict(i.conns)
@@ -367,6 +373,8 @@ def _ref_one(item):
                 return dict(kind="conns", detail=f"after {op}: conns has {sorted(i.conns)}")
     except Exception as e:
         return dict(kind="op_raised", detail=short_exc(e))
+    if final["i"] == "typo":
+        return "invalid_final"  # the slip was never corrected
     fdesign, _tie = ref_design(final, mode)
     try:
         rdev, rpart = refsem.R(fdesign)
